@@ -35,6 +35,11 @@ SPEC = dict(
         "calls; that the evaluator as a whole matches rt_*.go, scope/*.go is established by the differential run",
     ],
     assumptions=["programs with unbounded recursion are outside (fuel), as the property allows",
+                 "the correspondence compares with the code AS IT IS for add / del: results agree with the list model (builtins_refine_spec), but "
+                 "Go slice aliasing makes add(l, v[, i]) / del(l, i) change OTHER list values (the argument itself, earlier results) and "
+                 "del(map, number) does not remove a number key — deviations from the property's list / map model, witnessed by "
+                 "add_del_alias_deviation; proposed repair: fixes/C05-add-del-aliasing.patch (unedited suite passes twice); until it is "
+                 "applied or the deviations are listed as known findings they are NOT reported by this check",
                  "programs that stringify non-integral numbers / mixed-key maps or call inside a longer access chain are outside the model (UNSUP, counted)"],
     decode=decode,
 )
